@@ -32,6 +32,11 @@
    tzinfo subclasses; with and without microseconds) go through http_date, IfRange, dump_cookie expires and the Response
    date setters: the parsed instant equals the input at one-second resolution.  Clauses VHRaised / VHRoundTrip /
    VHRedumpRaised / VHNormalForm / VHDumpStable.
+7. Structure look-alikes: every string of length <= 4 over { \\ " a SP ; = , } as a value of the options, dict and list
+   codecs (next to other parameters whose keys the text may name) and hand-written values made of each codec's own syntax
+   ('a.txt; size=1', 'x", name="y', UNC paths, trailing backslashes, ...) for options, dict, list, set, cache-control,
+   auth parameters and CSP: parse(dump(v)) = v with the same number of keys (clauses LARaised / LARoundTrip /
+   LARedumpRaised / LANormalForm; drift as for rt).
 """
 from __future__ import annotations
 
@@ -151,6 +156,34 @@ def judge_value_histories(ctx: Ctx, vcases, kind="c06vh"):
     return lines
 
 
+def _run_la_chunk(chunk):
+    return hc.run_las(chunk)
+
+
+def judge_lookalikes(ctx: Ctx, lcases, kind="c06la"):
+    """Values that contain the codec's own syntax as text (deterministic enumeration + hand-written look-alikes)."""
+    chunks = [lcases[i:i + 400] for i in range(0, len(lcases), 400)]
+    recs = pmap(_run_la_chunk, chunks, workers=min(ctx.workers, 8), chunksize=1) if len(chunks) > 4 else [_run_la_chunk(c) for c in chunks]
+    lines = []
+    for chunk in recs:
+        for ln in chunk:
+            ln["t"], ln["i"] = len(lines), 0
+            lines.append(ln)
+            if ln["err"] == "":
+                ctx.nontrivial.add(("la", ln["codec"], tuple(ln["dumped"])))
+    ctx.count(len(lines))
+    for ln in lines[2000:2001] + lines[-1:]:
+        ctx.sample({"op": "la", "codec": ln["codec"], "dumped": _text(ln["dumped"]), "parsed": json.dumps(ln["parsed"])[:200]}, limit=16)
+    for r in ctx.judge(AREA, "HeaderCodecTrace", lines, batch=2500):
+        ln, case = lines[r["t"]], lcases[r["t"]]
+        if r["clause"] == "OutOfDomain":
+            raise MachineryError(f"look-alike driver produced a value outside the judged domain: {json.dumps(case)[:500]}")
+        obs = {"dumped": _text(ln["dumped"]), "parsed": ln["parsed"], "redumped": _text(ln["redumped"]), "reparsed": ln["reparsed"],
+               "err": ln["err"], "err2": ln["err2"]}
+        ctx.violation(f"{r['clause']}:{ln['codec']}", r["clause"], {"case": case, "observed": obs}, kind=kind)
+    return lines
+
+
 def run(ctx: Ctx):
     q = ctx.quick
     ctx.rule = ("case = one value (rt) or one header text (nf) of one of 16 codecs (quote, quote/no-token, list, set, dict, options, etags, "
@@ -255,10 +288,20 @@ def run(ctx: Ctx):
     vcases += hc.date_cases(rng, 100 if q else 5000)
     ctx.notes["value_histories"] = len(vcases)
     judge_value_histories(ctx, vcases)
+    # 7. structure look-alikes (deterministic, both tiers): every string of length <= 4 over \\ " a SP ; = , as a value of the
+    #    options / dict / list codecs next to other parameters, and hand-written values made of each codec's own syntax
+    lcases = hc.lookalike_cases()
+    ctx.notes["lookalike_cases"] = len(lcases)
+    judge_lookalikes(ctx, lcases)
 
 
 def replay(ctx: Ctx, data):
     case = data["case"]["case"]
+    if case.get("op") == "la":
+        ctx.sample({"replayed": json.dumps(case)[:300]})
+        judge_lookalikes(ctx, [case], kind=data.get("kind", "c06la"))
+        ctx.nontrivial.update({("replay", 0), ("replay", 1)})
+        return
     if case.get("op") in ("vh", "vhdate"):
         ctx.sample({"replayed": json.dumps(case)[:300]})
         judge_value_histories(ctx, [case], kind=data.get("kind", "c06vh"))
